@@ -10,8 +10,9 @@ Decided (necessary conditions of the sum identity; the numeric content is not de
           (request - mirror), threaded through the greedy top-up and the per-inverter split.
   C01.S   sign mirror: the supply path negates the request in and every cell and the remainder
           out; the supply branch of _inclusion_exclusion_bounds is the dual of the consume branch.
-  C01.B   reported == commanded: the map sent to the API is the distribution itself and the
-          reported distributed power is request - remainder.
+  C01.B   reported == commanded: the map sent to the API is the distribution itself, the
+          reported distributed power is request - remainder, and a call booked as failed always
+          has its set-point booked as failed power (and vice versa).
 """
 from __future__ import annotations
 
@@ -60,15 +61,32 @@ class Ledgers:
     # ---- classification of statements
     def _discover(self) -> None:
         fn = self.fn.node
-        # dicts of cells: annotated `dict[..., _Power]` / `dict[int, float]` results named *distribution*
+        # dicts of cells, by dataflow rather than by name:
+        #   * parameters / locals whose annotation mentions the cell class `_Power`;
+        #   * local dicts into which `_Power(...)` objects are stored;
+        #   * local dicts that receive subscript stores and flow into the function's return value
+        #     (the per-inverter set-point map handed back to the caller)
         for a in fn.args.args:
             if a.annotation is not None and "_Power" in u(a.annotation):
                 self.cell_dicts.add(a.arg)
+        returned: set[str] = set()
+        stored: set[str] = set()
         for n in walk_no_nested(fn):
-            if isinstance(n, ast.AnnAssign) and isinstance(n.target, ast.Name):
-                ann = u(n.annotation)
-                if "_Power" in ann or (ann.startswith("dict[int, float]") and "distribution" in n.target.id):
-                    self.cell_dicts.add(n.target.id)
+            if isinstance(n, ast.AnnAssign) and isinstance(n.target, ast.Name) and "_Power" in u(n.annotation):
+                self.cell_dicts.add(n.target.id)
+            if isinstance(n, ast.Return) and n.value is not None:
+                returned |= {x.id for x in ast.walk(n.value) if isinstance(x, ast.Name)}
+            tgt = None
+            if isinstance(n, ast.Assign) and len(n.targets) == 1:
+                tgt = n.targets[0]
+            elif isinstance(n, ast.AugAssign):
+                tgt = n.target
+            if isinstance(tgt, ast.Subscript) and isinstance(tgt.value, ast.Name):
+                stored.add(tgt.value.id)
+                if isinstance(n, ast.Assign) and isinstance(n.value, ast.Call) and u(n.value.func) == "_Power":
+                    self.cell_dicts.add(tgt.value.id)
+        params = {a.arg for a in fn.args.args + fn.args.kwonlyargs + fn.args.posonlyargs}
+        self.cell_dicts |= {n for n in stored & returned if n not in params}
         # locals bound to cell objects: loop vars over <celldict>.items(), X = <celldict>[k]
         for n in walk_no_nested(fn):
             if isinstance(n, ast.For) and isinstance(n.iter, ast.Call) and isinstance(
@@ -144,10 +162,15 @@ class Ledgers:
                 and isinstance(s.op, (ast.Add, ast.Sub)):
             d = self.te.ev(s.value)
             return s.target.id, (d if isinstance(s.op, ast.Add) else -d)
-        if isinstance(s, ast.Assign) and len(s.targets) == 1 and isinstance(s.targets[0], ast.Name):
-            name = s.targets[0].id
-            if any(isinstance(x, ast.Name) and x.id == name for x in ast.walk(s.value)):
-                d = self.te.ev(s.value) - Poly.atom(name)
+        tgt = val = None
+        if isinstance(s, ast.Assign) and len(s.targets) == 1:
+            tgt, val = s.targets[0], s.value
+        elif isinstance(s, ast.AnnAssign) and s.value is not None:
+            tgt, val = s.target, s.value
+        if isinstance(tgt, ast.Name) and val is not None:
+            name = tgt.id
+            if any(isinstance(x, ast.Name) and x.id == name for x in ast.walk(val)):
+                d = self.te.ev(val) - Poly.atom(name)
                 if name not in d.atoms():
                     return name, d
         return None
@@ -156,7 +179,7 @@ class Ledgers:
 def check_l1(run: Run, prog: Program) -> dict[str, Ledgers]:
     out = {}
     for fname in ALLOC_FUNCS:
-        fn = prog.func(f"{BDA}.{fname}")
+        fn = _view(prog, f"{BDA}.{fname}")
         run.analysed(fn.qual)
         lg = Ledgers(fn)
         out[fname] = lg
@@ -266,17 +289,151 @@ def _reads(cfg: CFG, nid: int, name: str) -> bool:
                 s = cfg.nodes[nid].ast
                 if isinstance(s, ast.AugAssign) and u(s.target) == name:
                     continue
+                if isinstance(s, (ast.Assign, ast.AnnAssign)) and cfg.nodes[nid].kind == "stmt":
+                    tg = s.targets[0] if isinstance(s, ast.Assign) and len(s.targets) == 1 else getattr(s, "target", None)
+                    val = s.value
+                    if isinstance(tg, ast.Name) and tg.id == name and val is not None:
+                        d = TermEval().ev(val) - Poly.atom(name)
+                        if name not in d.atoms():
+                            continue  # `L = L - e`: same as `L -= e`
                 return True
     return False
 
 
 # ---------------------------------------------------------------------------------------------
+def _view(prog: Program, qual: str) -> FuncInfo:
+    """Analysis view: private helpers spliced in, single-assignment locals substituted (if/else kept)."""
+    from ..engine.normalize import normalize
+    from ._c15_util import splice_tail_helpers
+
+    return normalize(prog, splice_tail_helpers(prog, prog.func(qual))[0], diamonds=False)
+
+
+def _float_param(fn: FuncInfo, position: int) -> str:
+    """The power parameter of an allocation routine: the one parameter annotated `float`
+    (fallback: its position in the signature)."""
+    a = fn.node.args
+    hits = [x.arg for x in a.posonlyargs + a.args + a.kwonlyargs if x.annotation is not None and u(x.annotation) == "float"]
+    if len(hits) == 1:
+        return hits[0]
+    if len(fn.params) > position:
+        return fn.params[position]
+    raise AnalysisError(f"{fn.qual}: power parameter not identified")
+
+
+class Prov:
+    """Provenance terms on a CFG: the polynomial of an expression at a node in which every local is
+    replaced by what it was computed from -- plain definitions are expanded, `x += e` / `x -= e` add to
+    the previous term, and an element of a tuple unpacked from a method call becomes the atom
+    `<callee>#<index>@<line>` whose call (and argument terms) is kept in `self.calls`."""
+
+    def __init__(self, prog: Program, fn: FuncInfo, cfg: CFG) -> None:
+        self.prog, self.fn, self.cfg = prog, fn, cfg
+        self.calls: dict[str, tuple[str, int, dict[str, Poly]]] = {}   # atom -> (callee, index, args by parameter)
+
+    def term(self, nid: int, e: ast.AST, depth: int = 10) -> Poly:
+        def hook(x: ast.AST, _te: TermEval) -> Poly | None:
+            if isinstance(x, ast.Name):
+                return self.name(nid, x.id, depth - 1)
+            return None
+
+        return TermEval(atom_hook=hook).ev(e)
+
+    def call_atom(self, nid: int, call: ast.Call, index: int, depth: int) -> Poly | None:
+        from ._c15_util import bound_args, method_params
+
+        f = call.func
+        if not (isinstance(f, ast.Attribute) and isinstance(f.value, ast.Name) and f.value.id in ("self", "cls")
+                and self.fn.cls is not None):
+            return None
+        callee = self.prog.resolve_method(self.fn.cls, f.attr)
+        if callee is None:
+            return None
+        args = bound_args(call, method_params(callee), f"{self.fn.qual}: self.{f.attr}(...)")
+        atom = f"{f.attr}#{index}@{getattr(call, 'lineno', 0)}"
+        self.calls[atom] = (f.attr, index, {k: self.term(nid, v, depth - 1) for k, v in args.items()})
+        return Poly.atom(atom)
+
+    def name(self, nid: int, name: str, depth: int = 10) -> Poly:
+        from ..engine.util import reaching_defs
+
+        if depth <= 0:
+            return Poly.atom(name)
+        defs = reaching_defs(self.cfg, nid, name)
+        if len(defs) != 1:
+            return Poly.atom(name)
+        d = defs[0]
+        n = self.cfg.nodes[d]
+        st = n.ast
+        if n.kind != "stmt" or st is None:
+            return Poly.atom(name)
+        if isinstance(st, ast.AugAssign) and isinstance(st.target, ast.Name) and st.target.id == name \
+                and isinstance(st.op, (ast.Add, ast.Sub)):
+            prev = self.name(d, name, depth - 1)
+            delta = self.term(d, st.value, depth - 1)
+            return prev + delta if isinstance(st.op, ast.Add) else prev - delta
+        tgt = val = None
+        if isinstance(st, ast.Assign) and len(st.targets) == 1:
+            tgt, val = st.targets[0], st.value
+        elif isinstance(st, ast.AnnAssign) and st.value is not None:
+            tgt, val = st.target, st.value
+        if isinstance(tgt, ast.Name) and tgt.id == name and val is not None:
+            if isinstance(val, ast.Call):
+                got = self.call_atom(d, val, -1, depth)  # the whole result of a method call
+                if got is not None:
+                    return got
+            return self.term(d, val, depth - 1)
+        if isinstance(tgt, (ast.Tuple, ast.List)) and isinstance(val, ast.Call):
+            for i, e in enumerate(tgt.elts):
+                if isinstance(e, ast.Name) and e.id == name:
+                    got = self.call_atom(d, val, i, depth)
+                    if got is not None:
+                        return got
+        return Poly.atom(name)
+
+
+def _zero_cells(cfg: CFG, nid: int, e: ast.AST) -> bool:
+    """`e` (at node nid) is a dict comprehension giving 0 to every element of its domain, unfiltered."""
+    from ..engine.util import reaching_defs
+    from ._c15_util import plain_def_value
+
+    for _ in range(4):
+        if not isinstance(e, ast.Name):
+            break
+        defs = reaching_defs(cfg, nid, e.id)
+        v = plain_def_value(cfg, defs[0], e.id) if len(defs) == 1 else None
+        if v is None:
+            return False
+        e, nid = v, defs[0]
+    return isinstance(e, ast.DictComp) and TermEval().ev(e.value).is_zero() \
+        and not any(g.ifs for g in e.generators)
+
+
+def _dr_fields(prog: Program) -> list[str]:
+    from ._c15_util import dataclass_fields
+
+    fields = dataclass_fields(prog, prog.cls(f"{MOD}:DistributionResult"))
+    if fields[:2] != ["distribution", "remaining_power"]:
+        raise AnalysisError(f"DistributionResult fields not recognised: {fields}")
+    return fields
+
+
+def _is_dr(e: ast.AST | None) -> bool:
+    return isinstance(e, ast.Call) and u(e.func).split(".")[-1] == "DistributionResult"
+
+
 def check_l3(run: Run, prog: Program, ledgers: dict[str, Ledgers]) -> None:
-    fn = prog.func(f"{BDA}._distribute_power")
+    from ._c15_util import bound_args
+
+    fn = _view(prog, f"{BDA}._distribute_power")
     lg = ledgers["_distribute_power"]
+    cfg = CFG(fn.node, fn.file)
     te = TermEval()
+    dr_fields = _dr_fields(prog)
+    request = _float_param(fn, 2)
+    pv = Prov(prog, fn, cfg)
     all_rets = [n for n in body_walk(fn.node) if isinstance(n, ast.Return)]
-    rets = [n for n in all_rets if isinstance(n.value, ast.Call) and u(n.value.func) == "DistributionResult"]
+    rets = [n for n in all_rets if _is_dr(n.value)]
     for r in all_rets:
         if r not in rets:
             run.violation("C01.L3", fn.qual, r,
@@ -284,127 +441,181 @@ def check_l3(run: Run, prog: Program, ledgers: dict[str, Ledgers]) -> None:
                           "from the allocation cells and the remainder ledger (e.g. it reuses the "
                           "zero-request result, so set-points + remainder no longer equal the request)",
                           node=r, file=fn.file)
-    if len(rets) < 2:
-        if not rets:
-            raise AnalysisError(f"{fn.qual}: no DistributionResult return found")
-        rets = [rets[0], rets[0]] if all_rets and all_rets[-1] is rets[0] else rets + rets
-    request = fn.params[2]  # power_w
-    final = rets[-1]
-    kws = {k.arg: k.value for k in final.value.keywords}  # type: ignore[union-attr]
-    rem = kws.get("remaining_power") or (final.value.args[1] if len(final.value.args) > 1 else None)  # type: ignore[union-attr]
-    dist = kws.get("distribution") or (final.value.args[0] if final.value.args else None)  # type: ignore[union-attr]
-    if rem is None or dist is None or not isinstance(rem, ast.Name):
-        raise AnalysisError(f"{fn.qual}: final DistributionResult shape not recognised")
-    L = rem.id
-    # all writes to L, in order
-    writes = [s for s in body_walk(fn.node) if isinstance(s, (ast.Assign, ast.AugAssign, ast.AnnAssign))
-              and any(u(w) == L for w in _targets(s))]
-    # the last plain definition from the mirror
-    defs = [s for s in writes if isinstance(s, ast.Assign) and isinstance(s.targets[0], ast.Name)]
-    ok_def = False
-    for s in defs:
-        p = te.ev(s.value)
-        for m in lg.mirrors:
-            if p == Poly.atom(request) - Poly.atom(m):
-                ok_def = True
-    run.check(ok_def, "C01.L3", fn.qual, f"{L} = {request} - <mirror>",
-              f"the reported remainder `{L}` is not defined as request minus the distributed-power "
-              "ledger", node=final, file=fn.file)
-    # every later change of L: threaded through the greedy top-up (arg -> 2nd result) or
-    # increased by the residual returned from the per-inverter split
-    greedy = find_calls(fn.node, lambda c: method_call(c, "self", "_greedy_distribute_remaining_power"))
-    split = find_calls(fn.node, lambda c: method_call(c, "self", "_distribute_multi_inverter_pairs"))
-    if len(greedy) != 1 or len(split) != 1:
-        raise AnalysisError(f"{fn.qual}: greedy/split call sites not found")
-    g = greedy[0]
-    ok_thread = len(g.args) == 2 and u(g.args[1]) == L
-    g_assign = [s for s in writes if isinstance(s, ast.Assign) and s.value is g]
-    ok_thread = ok_thread and len(g_assign) == 1 and isinstance(g_assign[0].targets[0], ast.Tuple) \
-        and u(g_assign[0].targets[0].elts[1]) == L
-    run.check(ok_thread, "C01.L3", fn.qual, g,
-              "the remainder is not threaded through the greedy top-up (passed in and re-bound from "
-              "its second result)", node=g, file=fn.file)
-    # split: either returns only the map (then its residual must be provably zero -> L2 of the
-    # split function) or returns (map, residual) and the residual is added to L
-    sp = split[0]
-    sp_assign = [s for s in body_walk(fn.node) if isinstance(s, ast.Assign) and s.value is sp]
-    residual_name = None
-    if sp_assign and isinstance(sp_assign[0].targets[0], ast.Tuple) and len(sp_assign[0].targets[0].elts) == 2:
-        residual_name = u(sp_assign[0].targets[0].elts[1])
-    other = [s for s in writes if s not in defs and s not in g_assign]
-    ok_other = True
-    for s in other:
-        if isinstance(s, ast.AugAssign) and isinstance(s.op, ast.Add) and residual_name \
-                and u(s.value) == residual_name:
+    if not rets:
+        raise AnalysisError(f"{fn.qual}: no DistributionResult return found")
+    if len(rets) == len(all_rets):
+        run.ok("C01.L3", f"{fn.qual}: every return builds a DistributionResult from cells and remainder")
+    greedy_name, split_name = "_greedy_distribute_remaining_power", "_distribute_multi_inverter_pairs"
+    greedy_fn = prog.func(f"{BDA}.{greedy_name}")
+    n_final = 0
+    split_has_residual = False
+    for r in rets:
+        sites = cfg.nodes_of(r)
+        if not sites:
+            raise AnalysisError(f"{fn.qual}: return site not found in the CFG")
+        site = sites[0]
+        f = bound_args(r.value, dr_fields, f"{fn.qual}: DistributionResult(...)")  # type: ignore[arg-type]
+        if "distribution" not in f or "remaining_power" not in f:
+            raise AnalysisError(f"{fn.qual}: DistributionResult(...) without set-points / remainder")
+        cells_t = pv.term(site, f["distribution"])
+        rem_t = pv.term(site, f["remaining_power"])
+        ca = cells_t.as_atom()
+        from_split = ca is not None and ca in pv.calls and pv.calls[ca][0] == split_name
+        if not from_split:
+            # the nothing-available early exit: all zero cells, remainder == request
+            ok = _zero_cells(cfg, site, f["distribution"]) and rem_t == Poly.atom(request)
+            run.check(ok, "C01.L3", fn.qual, r,
+                      "the nothing-available early exit does not return all-zero set-points with the whole "
+                      "request as remainder", node=r, file=fn.file,
+                      instance=f"{fn.qual}: early exit returns zero set-points and the whole request")
             continue
-        if isinstance(s, ast.AnnAssign):
-            continue
-        ok_other = False
-        run.violation("C01.L3", fn.qual, s,
-                      f"the remainder `{L}` is modified by a statement that is neither the greedy "
-                      "top-up nor the residual of the per-inverter split", node=s, file=fn.file)
-    if ok_other:
-        run.ok("C01.L3", f"{fn.qual}: remainder `{L}` only changed by top-up threading"
-               + (f" and += {residual_name}" if residual_name else ""))
+        n_final += 1
+        # returned cells are the split's map (its first / only result)
+        run.check(pv.calls[ca][1] in (0, -1), "C01.L3", fn.qual, "distribution=<result of the per-inverter split>",
+                  "the returned set-points are not the per-inverter split of the allocated cells",
+                  node=r, file=fn.file, instance=f"{fn.qual}: returned set-points are the per-inverter split")
+        # the returned remainder is the greedy top-up's residual, started from request - mirror,
+        # plus (once) the residual of the per-inverter split -- and nothing else
+        atoms = {}
+        shape_ok = True
+        for mono, coeff in rem_t.terms.items():
+            if len(mono) == 1 and mono[0][1] == 1 and coeff == 1 and mono[0][0] in pv.calls:
+                atoms[mono[0][0]] = pv.calls[mono[0][0]]
+            else:
+                shape_ok = False
+        g = [a for a, (callee, idx, _args) in atoms.items() if callee == greedy_name and idx == 1]
+        sp = [a for a, (callee, idx, _args) in atoms.items() if callee == split_name and idx == 1]
+        shape_ok = shape_ok and len(g) == 1 and len(sp) <= 1 and len(atoms) == len(g) + len(sp)
+        run.check(shape_ok, "C01.L3", fn.qual, f"remainder = {rem_t!r}",
+                  "the reported remainder is not the residual of the greedy top-up (plus the residual of the "
+                  "per-inverter split): it is recomputed, dropped or modified by another statement",
+                  node=r, file=fn.file,
+                  instance=f"{fn.qual}: remainder is the top-up residual plus the split residual, nothing else")
+        started = False
+        if len(g) == 1:
+            gp = method_params_of(greedy_fn)
+            arg = atoms[g[0]][2].get(gp[1]) if len(gp) > 1 else None
+            started = arg is not None and any(arg == Poly.atom(request) - Poly.atom(m) for m in lg.mirrors)
+        run.check(started, "C01.L3", fn.qual, f"{greedy_name}(<cells>, {request} - <mirror>)",
+                  "the remainder handed to the greedy top-up is not defined as request minus the "
+                  "distributed-power ledger", node=r, file=fn.file,
+                  instance=f"{fn.qual}: top-up starts from request - distributed-power ledger")
+        split_has_residual = split_has_residual or bool(sp)
+        # does the split return a residual at all?  then it must be part of the remainder
+        sfn0 = prog.func(f"{BDA}.{split_name}")
+        srets0 = [n for n in body_walk(sfn0.node) if isinstance(n, ast.Return) and n.value is not None]
+        returns_pair = bool(srets0) and all(isinstance(x.value, ast.Tuple) and len(x.value.elts) == 2 for x in srets0)
+        run.check(bool(sp) == returns_pair, "C01.L3", fn.qual, "remainder += <residual of the per-inverter split>",
+                  "the residual of the per-inverter split is not added to the reported remainder",
+                  node=r, file=fn.file, instance=f"{fn.qual}: split residual is added to the remainder")
+    if n_final == 0:
+        raise AnalysisError(f"{fn.qual}: no return built from the per-inverter split found")
     # the split function's second result is its own residual ledger
-    sfn = prog.func(f"{BDA}._distribute_multi_inverter_pairs")
+    sfn = _view(prog, f"{BDA}.{split_name}")
+    slg = ledgers[split_name]
     srets = [n for n in body_walk(sfn.node) if isinstance(n, ast.Return) and n.value is not None]
-    if residual_name:
-        ok = all(isinstance(r.value, ast.Tuple) and len(r.value.elts) == 2 for r in srets)
+    if split_has_residual:
+        ok = bool(srets) and all(isinstance(r.value, ast.Tuple) and len(r.value.elts) == 2
+                                 and isinstance(r.value.elts[1], ast.Name) for r in srets)
         if ok:
-            acc = u(srets[-1].value.elts[1])  # type: ignore[union-attr]
-            comp = ledgers["_distribute_multi_inverter_pairs"].complements
-            feeds = [s for s in body_walk(sfn.node) if isinstance(s, ast.AugAssign)
-                     and u(s.target) == acc and isinstance(s.op, ast.Add) and u(s.value) in comp]
-            ok = bool(feeds)
-        run.check(ok, "C01.L3", sfn.qual, "return new_distribution, <accumulated residual>",
+            accs = {r.value.elts[1].id for r in srets}  # type: ignore[union-attr]
+            ok = len(accs) == 1
+        if ok:
+            acc = next(iter(accs))
+            comp = slg.complements
+            writes = [s for s in body_walk(sfn.node) if isinstance(s, (ast.Assign, ast.AugAssign, ast.AnnAssign))
+                      and any(u(w) == acc for w in _targets(s))]
+            feeds = [s for s in writes if (nu := slg.name_update(s)) is not None and nu[0] == acc
+                     and any(nu[1] == Poly.atom(c) for c in comp)]
+            inits = [s for s in writes if s not in feeds]
+            ok = bool(feeds) and len(inits) == 1 and getattr(inits[0], "value", None) is not None \
+                and te.ev(inits[0].value).is_zero()  # type: ignore[union-attr]
+        run.check(ok, "C01.L3", sfn.qual, "return <set-points>, <accumulated residual>",
                   "the split's second result is not the accumulated residual of its complement ledger",
-                  node=sfn.node, file=sfn.file)
-    # returned cells are the split's map
-    ok = isinstance(dist, ast.Name) and sp_assign and (
-        u(sp_assign[0].targets[0]) == dist.id or (
-            isinstance(sp_assign[0].targets[0], ast.Tuple) and u(sp_assign[0].targets[0].elts[0]) == dist.id))
-    run.check(bool(ok), "C01.L3", fn.qual, "distribution=<result of the per-inverter split>",
-              "the returned set-points are not the per-inverter split of the allocated cells",
-              node=final, file=fn.file)
-    # early exit: all zero cells, remainder == request
-    early = rets[0]
-    if early is final:
-        return
-    args = list(early.value.args) + [k.value for k in early.value.keywords]  # type: ignore[union-attr]
-    ok = len(args) == 2
-    if ok:
-        cells, r = args
-        cdef = cells
-        if isinstance(cells, ast.Name):
-            for s in body_walk(fn.node):
-                if isinstance(s, ast.Assign) and u(s.targets[0]) == cells.id:
-                    cdef = s.value
-        ok = isinstance(cdef, ast.DictComp) and te.ev(cdef.value).is_zero() and not any(
-            g.ifs for g in cdef.generators) and te.ev(r) == Poly.atom(request)
-    run.check(ok, "C01.L3", fn.qual, early,
-              "the nothing-available early exit does not return all-zero set-points with the whole "
-              "request as remainder", node=early, file=fn.file)
-    # distribute_power: zero request -> zeros, remainder 0
+                  node=sfn.node, file=sfn.file,
+                  instance=f"{sfn.qual}: second result is the accumulated residual of the complement ledger")
+    # distribute_power: zero request -> zeros, remainder 0; dispatch by sign (path-wise)
+    from ..engine.normalize import inline_helpers
+    from ..engine.sympath import sym_paths
+
     dp = prog.func(f"{BDA}.distribute_power")
     run.analysed(dp.qual)
-    zr = [n for n in body_walk(dp.node) if isinstance(n, ast.Return) and isinstance(n.value, ast.Call)
-          and u(n.value.func) == "DistributionResult"]
-    ok = len(zr) == 1
-    if ok:
-        kws = {k.arg: k.value for k in zr[0].value.keywords}  # type: ignore[union-attr]
-        ok = isinstance(kws.get("distribution"), ast.DictComp) and te.ev(kws["distribution"].value).is_zero() \
-            and te.ev(kws["remaining_power"]).is_zero()
+    dnode = inline_helpers(prog, dp)
+    dview = FuncInfo(dp.name, dp.module, dnode, dp.cls, dp.outer)
+    dparams = method_params_of(dview)
+    if len(dparams) != 2:
+        raise AnalysisError(f"{dp.qual}: expected (power, components) parameters")
+    power, comps = dparams
+    paths = sym_paths(dnode)
+    zero_paths = [p for p in paths if p.exit == "return" and _is_dr(p.ret)]
+    ok = bool(zero_paths)
+    for p in zero_paths:
+        f = bound_args(p.ret, dr_fields, f"{dp.qual}: DistributionResult(...)")  # type: ignore[arg-type]
+        cells = f.get("distribution")
+        ok = ok and isinstance(cells, ast.DictComp) and te.ev(cells.value).is_zero() \
+            and not any(g.ifs for g in cells.generators) and "remaining_power" in f \
+            and te.ev(f["remaining_power"]).is_zero()
     run.check(ok, "C01.L3", dp.qual, "zero request -> zero set-points, zero remainder",
               "a zero request does not yield zero set-points and zero remainder", node=dp.node,
-              file=dp.file)
-    # dispatch by sign
-    txt = u(dp.node)
-    ok = bool(re.search(r"if power > 0(\.0)?:\s*return self\._distribute_consume_power\(power, components\)", txt)) \
-        and "return self._distribute_supply_power(power, components)" in txt
-    run.check(ok, "C01.S", dp.qual, "positive -> consume path, negative -> supply path",
+              file=dp.file, instance=f"{dp.qual}: zero request -> zero set-points, zero remainder")
+    ok_c = ok_s = True
+    n_c = n_s = 0
+    bad = None
+    for p in paths:
+        if p.exit != "return" or not isinstance(p.ret, ast.Call) or _is_dr(p.ret):
+            continue
+        callee = p.ret.func.attr if isinstance(p.ret.func, ast.Attribute) and u(p.ret.func.value) == "self" else None
+        if callee not in ("_distribute_consume_power", "_distribute_supply_power"):
+            continue
+        cps = method_params_of(prog.func(f"{BDA}.{callee}"))
+        a = bound_args(p.ret, cps, f"{dp.qual}: self.{callee}(...)")
+        args_ok = len(cps) == 2 and len(a) == 2 and cps[0] in a and cps[1] in a \
+            and te.ev(a[cps[0]]) == Poly.atom(power) and u(a[cps[1]]) == comps
+        facts = {f for (_k, _ko, atom, _ln, o) in p.conds if (f := _sign_fact(atom, o, power)) is not None}
+        # the zero request was answered before: `is_close_to_zero(power)` is false on this path
+        nonzero = any(isinstance(atom, ast.Call) and u(atom.func).split(".")[-1] == "is_close_to_zero"
+                      and len(atom.args) == 1 and te.ev(atom.args[0]) == Poly.atom(power) and not o
+                      for (_k, _ko, atom, _ln, o) in p.conds)
+        if callee == "_distribute_consume_power":
+            n_c += 1
+            good = args_ok and ("pos" in facts or ("nonneg" in facts and nonzero)) \
+                and not facts & {"neg", "nonpos"}
+            ok_c = ok_c and good
+        else:
+            n_s += 1
+            good = args_ok and bool(facts & {"neg", "nonpos"}) and "pos" not in facts
+            ok_s = ok_s and good
+        if not good and bad is None:
+            bad = p
+    run.check(ok_c and ok_s and n_c > 0 and n_s > 0, "C01.S", dp.qual, "positive -> consume path, negative -> supply path",
               "requests are not dispatched to the consume/supply paths by their sign",
-              node=dp.node, file=dp.file)
+              node=dp.node, file=dp.file, path=bad.describe() if bad is not None else None,
+              instance=f"{dp.qual}: positive -> consume path, negative -> supply path")
+
+
+def method_params_of(fn: FuncInfo) -> list[str]:
+    from ._c15_util import method_params
+
+    return method_params(fn)
+
+
+def _sign_fact(atom: ast.AST, outcome: bool, name: str) -> str | None:
+    """What a branch condition says about the sign of `name`: pos | nonpos | neg | nonneg."""
+    if not (isinstance(atom, ast.Compare) and len(atom.ops) == 1):
+        return None
+    te = TermEval()
+    left, right = te.ev(atom.left), te.ev(atom.comparators[0])
+    op = atom.ops[0]
+    if left == Poly.atom(name) and right.is_zero():
+        kind = type(op)
+    elif right == Poly.atom(name) and left.is_zero():
+        kind = {ast.Gt: ast.Lt, ast.Lt: ast.Gt, ast.GtE: ast.LtE, ast.LtE: ast.GtE}.get(type(op))  # type: ignore[assignment]
+    else:
+        return None
+    table = {ast.Gt: ("pos", "nonpos"), ast.GtE: ("nonneg", "neg"), ast.Lt: ("neg", "nonneg"), ast.LtE: ("nonpos", "pos")}
+    if kind not in table:
+        return None
+    return table[kind][0 if outcome else 1]
 
 
 def _targets(s: ast.stmt) -> list[ast.AST]:
@@ -419,75 +630,200 @@ def _targets(s: ast.stmt) -> list[ast.AST]:
 
 
 # ---------------------------------------------------------------------------------------------
+def _new_value(s: ast.AST) -> tuple[str, Poly] | None:
+    """(target text, term of the value stored) of an assignment to an attribute / subscript cell:
+    `t *= -1`, `t = t * -1`, `t = -t` all give (t, -t)."""
+    te = TermEval()
+    if isinstance(s, ast.AugAssign) and isinstance(s.target, (ast.Attribute, ast.Subscript)):
+        load = ast.parse(u(s.target), mode="eval").body
+        return u(s.target), te.ev(ast.BinOp(left=load, op=s.op, right=s.value))
+    if isinstance(s, ast.Assign) and len(s.targets) == 1 and isinstance(s.targets[0], (ast.Attribute, ast.Subscript)):
+        return u(s.targets[0]), te.ev(s.value)
+    return None
+
+
+def _negated_result(fn: FuncInfo, res: str) -> tuple[bool, bool]:
+    """(every set-point negated exactly once, remainder negated exactly once) for the result object
+    bound to local `res`: in-place negation in one unconditional pass over the set-point map, or the
+    map rebuilt by one unfiltered comprehension; `res.remaining_power` replaced by its negation."""
+    from ._c15_util import loop_binding
+
+    dist, rem = f"{res}.distribution", f"{res}.remaining_power"
+    cell_negs = cell_other = rem_negs = rem_other = 0
+    in_loops: set[int] = set()
+    for s in body_walk(fn.node):
+        if isinstance(s, ast.For):
+            b = loop_binding(s)
+            if b is not None and b[0] == dist:
+                _m, k, v = b
+                inner = [x for st in s.body for x in ast.walk(st) if isinstance(x, ast.stmt)]
+                in_loops |= {id(x) for x in inner}
+                nv = _new_value(s.body[0]) if len(s.body) == 1 and not s.orelse else None
+                cur = Poly.atom(f"{dist}[{k}]")
+                if nv is not None and nv[0] == f"{dist}[{k}]" and (
+                        nv[1] == -cur or (v is not None and nv[1] == -Poly.atom(v))):
+                    cell_negs += 1
+                elif any(isinstance(x, (ast.Assign, ast.AugAssign)) and (w := _new_value(x)) is not None
+                         and w[0].startswith(dist) for x in inner):
+                    cell_other += 1
+    for s in body_walk(fn.node):
+        if id(s) in in_loops:
+            continue
+        nv = _new_value(s) if isinstance(s, (ast.Assign, ast.AugAssign)) else None
+        if nv is None:
+            continue
+        if nv[0] == rem:
+            if nv[1] == -Poly.atom(rem):
+                rem_negs += 1
+            else:
+                rem_other += 1
+        elif nv[0] == dist and isinstance(s, ast.Assign) and isinstance(s.value, ast.DictComp):
+            c = s.value
+            b = loop_binding(c.generators[0]) if len(c.generators) == 1 and not c.generators[0].ifs else None
+            if b is not None and b[0] == dist and u(c.key) == b[1] and (
+                    (b[2] is not None and TermEval().ev(c.value) == -Poly.atom(b[2]))
+                    or TermEval().ev(c.value) == -Poly.atom(f"{dist}[{b[1]}]")):
+                cell_negs += 1
+            else:
+                cell_other += 1
+        elif nv[0].startswith(dist):
+            cell_other += 1
+    return cell_negs == 1 and cell_other == 0, rem_negs == 1 and rem_other == 0
+
+
 def check_sign(run: Run, prog: Program) -> None:
-    sp = prog.func(f"{BDA}._distribute_supply_power")
+    from ._c15_util import bound_args
+
+    core = prog.func(f"{BDA}._distribute_power")
+    core_params = method_params_of(core)
+    core_power = _float_param(core, 2)
+    sp = _view(prog, f"{BDA}._distribute_supply_power")
     run.analysed(sp.qual)
     te = TermEval()
-    p = sp.params[1]
+    p = _float_param(sp, 1)
     calls = find_calls(sp.node, lambda c: method_call(c, "self", "_distribute_power"))
-    ok = len(calls) == 1 and len(calls[0].args) >= 2 and te.ev(calls[0].args[1]) == -Poly.atom(p)
+    ok = len(calls) == 1
+    if ok:
+        a = bound_args(calls[0], core_params, f"{sp.qual}: self._distribute_power(...)")
+        ok = core_power in a and te.ev(a[core_power]) == -Poly.atom(p)
     run.check(ok, "C01.S", sp.qual, f"self._distribute_power(components, -{p}, ...)",
               "the supply request is not passed negated into the common allocation routine",
-              node=sp.node, file=sp.file)
+              node=sp.node, file=sp.file, instance=f"{sp.qual}: the request is passed negated into the allocation routine")
     res = None
     for s in body_walk(sp.node):
         if isinstance(s, (ast.Assign, ast.AnnAssign)) and getattr(s, "value", None) is (calls[0] if calls else None):
-            res = u(s.targets[0]) if isinstance(s, ast.Assign) else u(s.target)
-    ok_cells = ok_rem = False
+            t = s.targets[0] if isinstance(s, ast.Assign) and len(s.targets) == 1 else getattr(s, "target", None)
+            res = t.id if isinstance(t, ast.Name) else None
+    ok_cells = ok_rem = ok_ret = False
     if res:
-        for s in body_walk(sp.node):
-            if isinstance(s, ast.For) and u(s.iter) in (f"{res}.distribution.keys()", f"{res}.distribution") \
-                    and len(s.body) == 1 and isinstance(s.body[0], ast.AugAssign):
-                b = s.body[0]
-                ok_cells = u(b.target) == f"{res}.distribution[{u(s.target)}]" and isinstance(b.op, ast.Mult) \
-                    and te.ev(b.value) == Poly.const(-1)
-            if isinstance(s, ast.AugAssign) and u(s.target) == f"{res}.remaining_power":
-                ok_rem = isinstance(s.op, ast.Mult) and te.ev(s.value) == Poly.const(-1)
+        ok_cells, ok_rem = _negated_result(sp, res)
         rets = [n for n in body_walk(sp.node) if isinstance(n, ast.Return)]
-        ok_ret = len(rets) == 1 and u(rets[0].value) == res
-    else:
-        ok_ret = False
+        rebinds = [s for s in body_walk(sp.node) if isinstance(s, (ast.Assign, ast.AnnAssign, ast.AugAssign))
+                   and any(u(w) == res for w in _targets(s))]
+        ok_ret = len(rets) >= 1 and all(u(r.value) == res for r in rets) and len(rebinds) == 1
     run.check(ok_cells, "C01.S", sp.qual, "every set-point negated on the way out",
-              "not every set-point of the supply result is negated back", node=sp.node, file=sp.file)
+              "not every set-point of the supply result is negated back", node=sp.node, file=sp.file,
+              instance=f"{sp.qual}: every set-point negated on the way out")
     run.check(ok_rem, "C01.S", sp.qual, "remainder negated on the way out",
               "the remainder of a supply request is not negated back (wrong sign / double count)",
-              node=sp.node, file=sp.file)
+              node=sp.node, file=sp.file, instance=f"{sp.qual}: remainder negated on the way out")
     run.check(ok_ret, "C01.S", sp.qual, "returns the negated result",
-              "the supply path does not return the negated result object", node=sp.node, file=sp.file)
-    cp = prog.func(f"{BDA}._distribute_consume_power")
+              "the supply path does not return the negated result object", node=sp.node, file=sp.file,
+              instance=f"{sp.qual}: returns the negated result")
+    cp = _view(prog, f"{BDA}._distribute_consume_power")
     run.analysed(cp.qual)
+    cpow = _float_param(cp, 1)
     calls = find_calls(cp.node, lambda c: method_call(c, "self", "_distribute_power"))
     rets = [n for n in body_walk(cp.node) if isinstance(n, ast.Return)]
-    ok = len(calls) == 1 and u(calls[0].args[1]) == cp.params[1] and len(rets) == 1 and rets[0].value is calls[0]
+    ok = len(calls) == 1 and len(rets) >= 1 and all(r.value is calls[0] for r in rets)
+    if ok:
+        a = bound_args(calls[0], core_params, f"{cp.qual}: self._distribute_power(...)")
+        ok = core_power in a and te.ev(a[core_power]) == Poly.atom(cpow)
     run.check(ok, "C01.S", cp.qual, "consume path passes the request unchanged",
-              "the consume path alters the request or the result", node=cp.node, file=cp.file)
+              "the consume path alters the request or the result", node=cp.node, file=cp.file,
+              instance=f"{cp.qual}: consume path passes the request unchanged and returns the result as is")
     # supply branch of the bounds is the dual of the consume branch
     ib = prog.func(f"{BDA}._inclusion_exclusion_bounds")
     run.analysed(ib.qual)
+    flag = next((x.arg for x in ib.node.args.args + ib.node.args.kwonlyargs
+                 if x.annotation is not None and u(x.annotation) == "bool"), None)
+    if flag is None:
+        raise AnalysisError(f"{ib.qual}: no boolean supply/consume selector parameter")
+
+    def polarity(test: ast.AST) -> bool | None:
+        from ..engine.util import canon
+
+        c = canon(test)
+        pos = [("truthy", flag), ("is", frozenset((flag, "True"))), ("==", frozenset((flag, "True"))),
+               ("isnot", frozenset((flag, "False"))), ("!=", frozenset((flag, "False")))]
+        neg = [("not", ("truthy", flag)), ("is", frozenset((flag, "False"))), ("==", frozenset((flag, "False"))),
+               ("isnot", frozenset((flag, "True"))), ("!=", frozenset((flag, "True")))]
+        return True if c in pos else False if c in neg else None
+
     pairs = 0
     for n in ast.walk(ib.node):
-        if isinstance(n, ast.If) and u(n.test) == "supply" and n.orelse:
-            sup = {u(s.targets[0]): s.value for s in n.body if isinstance(s, ast.Assign)}
-            con = {u(s.targets[0]): s.value for s in n.orelse if isinstance(s, ast.Assign)}
+        table: list[tuple[str, ast.AST, ast.AST, ast.AST]] = []   # (cell, supply value, consume value, node)
+        if isinstance(n, ast.If) and n.orelse and (pol := polarity(n.test)) is not None:
+            a_arm = {u(s.targets[0]): s.value for s in n.body if isinstance(s, ast.Assign) and len(s.targets) == 1}
+            b_arm = {u(s.targets[0]): s.value for s in n.orelse if isinstance(s, ast.Assign) and len(s.targets) == 1}
+            sup, con = (a_arm, b_arm) if pol else (b_arm, a_arm)
             run.check(set(sup) == set(con), "C01.S", ib.qual, n,
-                      "supply and consume branches assign different bound tables", node=n, file=ib.file)
-            for k in sup:
-                if k not in con:
-                    continue
-                pairs += 1
-                d = dual(sup[k])
-                run.check(d == u(con[k]).replace(" ", ""), "C01.S", ib.qual,
-                          f"{k} = {u(sup[k])}",
-                          f"the supply bound `{k} = {u(sup[k])}` is not the mirror image "
-                          f"(upper<->lower, min<->max, negated) of the consume bound `{u(con[k])}`",
-                          node=sup[k], file=ib.file,
-                          instance=f"{ib.qual}: {k} supply is the dual of consume")
+                      "supply and consume branches assign different bound tables", node=n, file=ib.file,
+                      instance=f"{ib.qual}: supply and consume branches assign the same bound tables @{sorted(sup)}")
+            table = [(k, sup[k], con[k], sup[k]) for k in sup if k in con]
+        elif isinstance(n, ast.Assign) and len(n.targets) == 1 and isinstance(n.value, ast.IfExp) \
+                and (pol := polarity(n.value.test)) is not None:
+            v = n.value
+            table = [(u(n.targets[0]), v.body if pol else v.orelse, v.orelse if pol else v.body, n)]
+        for k, sv, cv, node in table:
+            pairs += 1
+            run.check(dual_form(sv) == bound_form(cv), "C01.S", ib.qual,
+                      f"{k} = {u(sv)}",
+                      f"the supply bound `{k} = {u(sv)}` is not the mirror image "
+                      f"(upper<->lower, min<->max, negated) of the consume bound `{u(cv)}`",
+                      node=node, file=ib.file,
+                      instance=f"{ib.qual}: {k} supply is the dual of consume")
     if pairs < 4:
         raise AnalysisError(f"{ib.qual}: only {pairs} supply/consume bound pairs found")
 
 
+def bound_form(e: ast.AST, neg: bool = False) -> Any:
+    """Normal form of a bound expression with negation pushed to the leaves:
+    -max(a, b) == min(-a, -b); min/max are commutative; `-1 * x`, `x * -1`, `-x` coincide."""
+    if isinstance(e, ast.UnaryOp) and isinstance(e.op, ast.USub):
+        return bound_form(e.operand, not neg)
+    if isinstance(e, ast.UnaryOp) and isinstance(e.op, ast.UAdd):
+        return bound_form(e.operand, neg)
+    if isinstance(e, ast.BinOp) and isinstance(e.op, ast.Mult):
+        for a, b in ((e.left, e.right), (e.right, e.left)):
+            c = TermEval().ev(a).const_value()
+            if c is not None and c in (1, -1):
+                return bound_form(b, neg != (c == -1))
+    if isinstance(e, ast.Call) and isinstance(e.func, ast.Name) and e.func.id in ("min", "max") \
+            and len(e.args) >= 2 and not e.keywords:
+        name = e.func.id
+        if neg:
+            name = "min" if name == "max" else "max"
+        return (name, frozenset(bound_form(a, neg) for a in e.args))
+    return ("neg" if neg else "pos", u(e))
+
+
+def dual_form(e: ast.AST) -> Any:
+    """Image of a supply-side bound under the sign mirror x -> -x: every negated lower bound becomes
+    the corresponding positive upper bound (and vice versa); the min/max structure is preserved."""
+    def swap(t: str) -> str:
+        return t.replace("_lower", "_UPPER").replace("_upper", "_lower").replace("_UPPER", "_upper")
+
+    def walk(f: Any) -> Any:
+        if f[0] in ("min", "max"):
+            return (f[0], frozenset(walk(x) for x in f[1]))
+        return ("pos" if f[0] == "neg" else "neg", swap(f[1]))
+
+    return walk(bound_form(e))
+
+
 def dual(e: ast.AST) -> str | None:
-    """Dual of a supply-side bound expression: must be `-X`; swap lower->upper, max->min."""
+    """(kept for importers) textual dual of a supply-side bound `-X`."""
     if not (isinstance(e, ast.UnaryOp) and isinstance(e.op, ast.USub)):
         return None
     t = u(e.operand).replace(" ", "")
@@ -609,6 +945,30 @@ def check_b(run: Run, prog: Program) -> None:
     run.check(ok, "C01.B", gd.qual, "_get_power_distribution(request, ...)",
               "the distribution is computed for a different request", node=gd.node, file=gd.file,
               instance=f"{gd.qual}: the distribution is computed for the processed request")
+    # what is subtracted from the reported set power as "failed" covers every call booked as failed:
+    # in the result loop of _parse_result the failed set and the failed power are updated together
+    # (roles bound by dataflow from PartialFailure back through _set_distributed_power, see C15)
+    from .c15 import BatteryRoles, booking_nodes, iteration_path_with_only, result_loop
+
+    roles = BatteryRoles(prog)
+    pr = roles.pr
+    run.analysed(pr.qual)
+    pcfg = CFG(pr.node, pr.file)
+    _r, hdr, key_var, _tasks, body = result_loop(pcfg, pr.qual)
+    fp_nodes, fs_nodes, _stray, _allocs = booking_nodes(pcfg, body, key_var, roles.pr_pow, roles.pr_set)
+    first = [m for m, lab in pcfg.succ[hdr.id] if lab == "iter"][0]
+    flags = pcfg.bool_flags()
+    wit = None
+    ok = bool(fp_nodes) and bool(fs_nodes)
+    if ok:
+        wit = iteration_path_with_only(pcfg, first, hdr.id, fs_nodes, fp_nodes, flags) \
+            or iteration_path_with_only(pcfg, first, hdr.id, fp_nodes, fs_nodes, flags)
+        ok = wit is None
+    run.check(ok, "C01.B", pr.qual, "a call booked as failed has its set-point booked as failed power",
+              "a set_power call can be booked in the failed set without its set-point being added to the failed "
+              "power (or vice versa): the power reported as set includes a set-point the hardware never accepted",
+              node=pr.node, file=pr.file, path=pcfg.describe_path(wit),
+              instance=f"{pr.qual}: failed set and failed power are booked together")
     sd = norm(f"{BM}._set_distributed_power")
     run.analysed(sd.qual)
     sd_dist = typed(sd, "DistributionResult", "distribution")
@@ -641,6 +1001,11 @@ CONTROLS = [
      "for inverter_id, power in distribution.distribution.items()\n        }",
      "for inverter_id, power in distribution.distribution.items()\n            if power != 0.0\n        }",
      "C01.B"),
+    ("timed-out call booked in the failed set only",
+     "microgrid._power_distributing._component_managers._battery_manager",
+     "            failed = True\n            try:\n",
+     "            if aws.cancelled():\n                failed_batteries.update(battery_ids)\n                continue\n"
+     "            failed = True\n            try:\n", "C01.B"),
     ("mirror ledger bumped without a cell", MOD,
      "            distributed_power += excess\n", "            distributed_power += excess\n            distributed_power += 0.1\n",
      "C01.L1"),
